@@ -4,6 +4,7 @@ import (
 	"fmt"
 	"os"
 	"strings"
+	"sync"
 	"sync/atomic"
 	"testing"
 	"time"
@@ -464,6 +465,81 @@ func runC03UpgradeAfterClose(cause string, r *rep.Report) (key, msg string) {
 	return
 }
 
+// runC03CauseDuringOpen: the connection of a session dies while the session is still being
+// constructed: a server-level flush listener (it runs while the open packet is handed to the
+// transport, before the handshake has announced or even registered the session) kills the
+// carrying connection and waits until the transport's reader has noticed.  The state must still
+// only move forward, at most one close event, and a session that closed is never announced.
+func runC03CauseDuringOpen(transport string, r *rep.Report) (key, msg string, hit bool) {
+	rig.Bubble(r.T(), func() {
+		so := &config.ServerOptions{}
+		so.SetTransports(types.NewSet("polling", "websocket", "webtransport"))
+		so.SetPingInterval(300 * time.Millisecond)
+		so.SetPingTimeout(200 * time.Millisecond)
+		w := rig.NewWorld(rig.Options{Server: so})
+		defer w.Finish()
+		var cl *rig.Client
+		var mu sync.Mutex
+		var sid string
+		var once sync.Once
+		w.Eng.On("flush", func(a ...any) {
+			once.Do(func() {
+				s := a[0].(engine.Socket)
+				mu.Lock()
+				sid = s.Id()
+				mu.Unlock()
+				hit = true
+				// the carrying connection goes away under the session
+				switch transport {
+				case "webtransport":
+					mu.Lock()
+					c := cl
+					mu.Unlock()
+					if c != nil && c.WTServerStream != nil {
+						c.WTServerStream.CloseBoth()
+					}
+				default:
+					if n := len(w.L.Conns); n > 0 {
+						w.L.Conns[n-1].Close()
+					}
+				}
+				for i := 0; i < 20 && s.ReadyState() != "closed"; i++ {
+					time.Sleep(time.Millisecond)
+				}
+			})
+		})
+		cfg := rig.ClientCfg{Rev: 4, Transport: transport, NoAutoPong: true}
+		done := make(chan struct{})
+		go func() {
+			c, _ := w.Connect(cfg)
+			mu.Lock()
+			cl = c
+			mu.Unlock()
+			close(done)
+		}()
+		rig.Wait()
+		time.Sleep(2 * time.Second) // past every heartbeat deadline
+		rig.Wait()
+		mu.Lock()
+		id := sid
+		mu.Unlock()
+		if id == "" {
+			hit = false
+			return
+		}
+		key, msg = judgeLifecycle(w, id, []string{"peer-disconnect", "ping-timeout"}, false)
+		if key == "" {
+			key, msg = checkRegistry(w)
+		}
+		mu.Lock()
+		if cl != nil {
+			cl.Stop()
+		}
+		mu.Unlock()
+	})
+	return
+}
+
 // runC03CloseInsideSend: a close cause completes while Send is between its ready-state test and
 // its flush (a packetCreate listener runs exactly there).  The packet of that Send must be
 // discarded silently: no flush, drain or any other event after the close event.
@@ -591,6 +667,20 @@ func TestC03(t *testing.T) {
 	defer func() {
 		r.Obs("events_concurrent_with_close_same_instant_other_goroutine", c03ConcurrentWithClose.Load())
 	}()
+	if r.Lane == 3%r.Lanes {
+		for k := 0; k < r.N(8, 200); k++ {
+			for _, tr := range []string{"websocket", "polling", "webtransport"} {
+				key, msg, hit := runC03CauseDuringOpen(tr, r)
+				r.Case("cause-during-open/"+tr, hit)
+				if hit {
+					r.Obs("connections_killed_while_the_open_packet_is_flushed", 1)
+				}
+				if key != "" {
+					r.Violation(key, msg, map[string]any{"lane": "the carrying connection dies while the open packet is being flushed (server-level flush listener during construction)", "transport": tr})
+				}
+			}
+		}
+	}
 	if r.Lane == 2%r.Lanes {
 		for k := 0; k < r.N(4, 100); k++ {
 			for _, tr := range []string{"polling", "websocket", "webtransport"} {
